@@ -642,6 +642,92 @@ theorem binding_names_not_shared :
     reservedAlike ⟨"kernel", .object .Texture2D .single false⟩ = false ∧
     reservedAlike ⟨"main", .cbuffer⟩ = false := by decide
 
+/-! ### The mode of `compile()`: all pipelines / one named pipeline / `no_pipeline_mode()` (seed C18-7)
+
+`build_pipeline` hands the exporters a module with `selected_pipeline = Some _` in the first two modes and `None` in
+the third.  The statements above are about `bindingsFor`, which looks at the declarations only; they describe the code
+in *every* mode only if no exporter makes its reflection depend on a selected pipeline.  That is read from both
+`generate_module`s on every run and pinned here; `bindingsInMode` interprets the extracted facts (an exporter that
+reflects only under a selected pipeline reports nothing in no-pipeline mode), and the target-independence theorems
+are restated with the mode quantified. -/
+
+/-- pinned: both exporters run their `analyse_bindings` loop and hand its result on whether or not a pipeline is
+    selected (hlsl: the loop precedes every look at `module.selected_pipeline`; msl: `generate_pipeline` takes an
+    `Option`, is called unconditionally and analyses before it looks at the definition).  Seed C18-7 (Metal returns
+    `PipelineDescription::default()` without a selected pipeline) falsifies the second conjunct. -/
+theorem bindings_reported_without_pipeline :
+    hlslBindingsReportedWithoutPipeline = true ∧ mslBindingsReportedWithoutPipeline = true := by decide
+
+/-- for the extracted facts the reflection of every target is the same function of the declarations in every mode -/
+theorem bindings_mode_independent (rn : NameMaps) (t : Target) (sba : Bool) (m : Mode) (ds : List Decl) :
+    bindingsInMode codeReportsWithoutPipeline rn t sba m ds = bindingsFor rn t sba ds := by
+  have h : ∀ b, codeReportsWithoutPipeline b = true := by
+    intro b
+    cases b
+    · exact bindings_reported_without_pipeline.1
+    · exact bindings_reported_without_pipeline.2
+  simp [bindingsInMode, h]
+
+/-- `binding_kinds_counts_shared` with the mode quantified: any declarations, any name maps, any two targets and
+    buffer-address settings, **any mode** (all pipelines, a named pipeline, no pipeline): both exports fail or the
+    kinds / counts of the compared part are equal in order -/
+theorem binding_kinds_counts_shared_in_every_mode (rn : NameMaps) (t t' : Target) (sba sba' : Bool) (m : Mode)
+    (ds : List Decl) :
+    (bindingsInMode codeReportsWithoutPipeline rn t sba m ds).map comparableKindsCounts =
+    (bindingsInMode codeReportsWithoutPipeline rn t' sba' m ds).map comparableKindsCounts := by
+  rw [bindings_mode_independent, bindings_mode_independent]
+  exact binding_kinds_counts_shared rn t t' sba sba' ds
+
+/-- **Partial** (same missing part as `binding_names_kinds_counts_shared_partial`: names are shared only when every
+    declared name is reserved in neither or in both target languages; the full statement is false, see
+    `binding_names_not_shared`), with the mode quantified -/
+theorem binding_names_kinds_counts_shared_in_every_mode_partial (t t' : Target) (sba sba' : Bool) (m : Mode)
+    (ds : List Decl) (halike : ∀ d ∈ ds, reservedAlike d = true) :
+    (bindingsInMode codeReportsWithoutPipeline codeNameMaps t sba m ds).map comparable =
+    (bindingsInMode codeReportsWithoutPipeline codeNameMaps t' sba' m ds).map comparable := by
+  rw [bindings_mode_independent, bindings_mode_independent]
+  exact binding_names_kinds_counts_shared_partial t t' sba sba' ds halike
+
+/-- DirectX and Vulkan agree on names, kinds and counts in every mode, no hypothesis -/
+theorem dx_vk_bindings_shared_in_every_mode (rn : NameMaps) (sba : Bool) (m : Mode) (ds : List Decl) :
+    (bindingsInMode codeReportsWithoutPipeline rn .HlslForDirectX false m ds).map comparable =
+    (bindingsInMode codeReportsWithoutPipeline rn .HlslForVulkan sba m ds).map comparable := by
+  rw [bindings_mode_independent, bindings_mode_independent]
+  exact dx_vk_bindings_shared rn sba ds
+
+/-- every target reports the same stage kinds and thread-group sizes in every mode (none at all without a pipeline) -/
+theorem all_targets_same_stage_kinds_sizes_in_every_mode (rnFn : String → String) (t t' : Target) (m : Mode)
+    (stages : List StageDef) :
+    (stageReportsInMode rnFn t m stages).map (fun s => (s.stage, s.threads)) =
+    (stageReportsInMode rnFn t' m stages).map (fun s => (s.stage, s.threads)) := by
+  unfold stageReportsInMode
+  cases m.selectsPipeline
+  · rfl
+  · exact all_targets_same_stage_kinds_sizes rnFn t t' stages
+
+/-- an exporter table like seed C18-7's: Metal reflects only under a selected pipeline -/
+def seedC18_7 : Backend → Bool := fun b => b != .msl
+
+def modeDs : List Decl := [⟨"g_t", .object .Texture2D (.sized 3) false⟩, ⟨"g_c", .cbuffer⟩]
+
+/-- non-vacuity: in no-pipeline mode the compared part is not empty and equal for DirectX and Metal; and the pinned
+    fact matters - for an exporter table like the seed's (Metal reflects only under a selected pipeline) the kinds /
+    counts of the two targets differ in no-pipeline mode and only there -/
+example :
+    (bindingsInMode codeReportsWithoutPipeline codeNameMaps .Msl false .none modeDs).map comparable =
+      .ok [("g_t", .Texture2d, some 3), ("g_c", .ConstantBuffer, some 1)] := by decide
+example :
+    (bindingsInMode codeReportsWithoutPipeline codeNameMaps .HlslForDirectX false .none modeDs).map comparable =
+      .ok [("g_t", .Texture2d, some 3), ("g_c", .ConstantBuffer, some 1)] := by decide
+example :
+    (bindingsInMode seedC18_7 codeNameMaps .Msl false .none modeDs).map comparableKindsCounts = .ok [] := by decide
+example :
+    (bindingsInMode seedC18_7 codeNameMaps .Msl false .none modeDs).map comparableKindsCounts ≠
+      (bindingsInMode seedC18_7 codeNameMaps .HlslForDirectX false .none modeDs).map comparableKindsCounts := by decide
+example :
+    (bindingsInMode seedC18_7 codeNameMaps .Msl false .named modeDs).map comparableKindsCounts =
+      (bindingsInMode seedC18_7 codeNameMaps .HlslForDirectX false .named modeDs).map comparableKindsCounts := by decide
+
 /-! ## Non-vacuity -/
 
 /-- a file with a user macro, nested conditionals and `defined`, clean of the target macros, expands to real
